@@ -59,6 +59,7 @@ ASSUMPTIONS = [
     "part by part, lanelets are moved behind the network's back, so find_lanelet_by_position is not compared in that mode (index "
     "maintenance is C11); with dims.warm the occupancies are read from the live objects whose caches were filled before the motion",
 ]
+EXTRA_MODULES = ["CRProps.T05"]      # translator tie: Gen.SrcC05 (regenerated from the repo every run) = hand model CRModel/Rigid.lean
 REQUIRED_BUCKETS = ["dim/ints", "dim/utm", "dim/alias", "dim/mutate", "dim/warm", "dim/fail_first", "dim/list_add", "dim/step2",
                     "dim/a_type/np.float64", "dim/a_type/np.int64", "dim/t_type/f32", "lanelet/own-center-line",
                     "obst/update_initial_state", "area/no-border", "loose/area", "loose/areaborder", "loose/matrix", "loose/network",
